@@ -70,9 +70,9 @@ func runC11(c *core.Ctx) {
 			// the indexed destination loop of an encoder that normalises its count first
 			discharged := false
 			for fn, p := range encBodies {
-				if strings.HasPrefix(o.Key, funcKey(fn)+"#index") && countNormalised(p) {
+				if (strings.HasPrefix(o.Key, funcKey(fn)+"#index") || strings.HasPrefix(o.Key, funcKey(fn)+"#slice")) && countNormalised(c, p) {
 					o.Verdict, o.Kind = core.Discharged, ""
-					o.Detail = "index loop bounded by a count field that the encoder sets to len(list) when they differ (uint8(len) <= len): " + o.Detail
+					o.Detail = "index loop / list[:count] bounded by a count field that the encoder sets to len(list) when they differ (uint8(len) <= len): " + o.Detail
 					discharged = true
 				}
 			}
@@ -121,9 +121,9 @@ func reprRule(c *core.Ctx, p *pduInfo) {
 	}
 }
 
-func countNormalised(p *pduInfo) bool {
+func countNormalised(c *core.Ctx, p *pduInfo) bool {
 	for _, a := range p.Enc.Assigns {
-		if isCountNormalisation(p, a) {
+		if isCountNormalisation(c, p, a) {
 			return true
 		}
 	}
@@ -131,7 +131,112 @@ func countNormalised(p *pduInfo) bool {
 }
 
 // isCountNormalisation: `if len(p.L) != int(p.C) { p.C = T(len(p.L)) }` before the loop over L bounded by C.
-func isCountNormalisation(p *pduInfo, a wire.Assign) bool {
+func isCountNormalisation(c *core.Ctx, p *pduInfo, a wire.Assign) bool {
+	if isCountNormalisationAST(p, a) {
+		return true
+	}
+	return isCountNormalisationSSA(c, p, a)
+}
+
+// isCountNormalisationSSA decides the same on SSA (operands in either order, the length held in a local, an if with an
+// init statement): the store `C = T(len(L))` is reached only over an edge that establishes len(L) != C, and the encoder's
+// loop over L is bounded by C.
+func isCountNormalisationSSA(c *core.Ctx, p *pduInfo, a wire.Assign) bool {
+	fn := c.Prog.SSAFunc(p.Methods["IEncode"])
+	if fn == nil || len(fn.Params) == 0 {
+		return false
+	}
+	recv := ssa.Value(fn.Params[0])
+	strip := func(v ssa.Value) ssa.Value {
+		for {
+			switch x := v.(type) {
+			case *ssa.Convert:
+				v = x.X
+			case *ssa.ChangeType:
+				v = x.X
+			default:
+				return v
+			}
+		}
+	}
+	lenOfField := func(v ssa.Value) string {
+		call, ok := strip(v).(*ssa.Call)
+		if !ok {
+			return ""
+		}
+		if b, ok := call.Call.Value.(*ssa.Builtin); !ok || b.Name() != "len" {
+			return ""
+		}
+		if u, ok := call.Call.Args[0].(*ssa.UnOp); ok {
+			if chain, ok := ssaFieldChain(u.X, recv); ok {
+				return chain
+			}
+		}
+		return ""
+	}
+	fieldLoad := func(v ssa.Value) string {
+		if u, ok := strip(v).(*ssa.UnOp); ok {
+			if chain, ok := ssaFieldChain(u.X, recv); ok {
+				return chain
+			}
+		}
+		return ""
+	}
+	list := ""
+	found := false
+	for _, b := range fn.Blocks {
+		for _, ins := range b.Instrs {
+			st, ok := ins.(*ssa.Store)
+			if !ok {
+				continue
+			}
+			chain, ok := ssaFieldChain(st.Addr, recv)
+			if !ok || chain != a.Field.String() {
+				continue
+			}
+			l := lenOfField(st.Val)
+			if l == "" {
+				return false
+			}
+			// an edge into this block establishes len(L) != C
+			okEdge := false
+			for d := b; d.Idom() != nil; d = d.Idom() {
+				id := d.Idom()
+				ifi, isIf := id.Instrs[len(id.Instrs)-1].(*ssa.If)
+				if !isIf || id.Succs[0] == id.Succs[1] {
+					continue
+				}
+				bo, isBo := ifi.Cond.(*ssa.BinOp)
+				if !isBo || (bo.Op != token.NEQ && bo.Op != token.EQL) {
+					continue
+				}
+				viaTrue, viaFalse := viaEdge(id, d)
+				if viaTrue == viaFalse || (bo.Op == token.NEQ) != viaTrue {
+					continue
+				}
+				x, y := bo.X, bo.Y
+				if (lenOfField(x) == l && fieldLoad(y) == chain) || (lenOfField(y) == l && fieldLoad(x) == chain) {
+					okEdge = true
+				}
+			}
+			if !okEdge {
+				return false
+			}
+			list, found = l, true
+		}
+	}
+	if !found {
+		return false
+	}
+	for _, o := range p.Enc.Ops {
+		if o.Kind == wire.LOOP && o.Count.String() == a.Field.String() && o.Over.String() == list {
+			return true
+		}
+	}
+	return false
+}
+
+func isCountNormalisationAST(p *pduInfo, a wire.Assign) bool {
 	be, ok := a.Cond.(*ast.BinaryExpr)
 	if !ok || be.Op != token.NEQ {
 		return false
@@ -210,13 +315,16 @@ func normalizeRule(c *core.Ctx, p *pduInfo) {
 		switch {
 		case f == lengthField && a.Cond == nil:
 			// the length word (its value is judged by C02-LEN-HAND)
-		case isCountNormalisation(p, a):
+		case isCountNormalisation(c, p, a):
 		case p.Key() == "cmpp/cmpp20.PduSubmit" && (f == "PkTotal" || f == "PkNumber"):
 			// documented default: only when BOTH counters are zero, to 1/1
-			cond := types.ExprString(a.Cond)
+			cond := "<unconditional>"
+			if a.Cond != nil {
+				cond = types.ExprString(a.Cond)
+			}
 			v := a.Info.Types[a.Expr].Value
 			one := v != nil && v.Kind() == constant.Int && constant.Sign(v) > 0 && v.ExactString() == "1"
-			if a.Cond == nil || !(strings.Contains(cond, "PkTotal == 0") && strings.Contains(cond, "PkNumber == 0") && strings.Contains(cond, "&&")) || !one {
+			if a.Cond == nil || !one || !bothZeroAtStore(c, p, f) {
 				bad = append(bad, fmt.Sprintf("field %s is rewritten under `%s`: only the all-zero part counter may be defaulted to 1/1", f, cond))
 			}
 			pk++
@@ -228,4 +336,79 @@ func normalizeRule(c *core.Ctx, p *pduInfo) {
 		bad = append(bad, "only one of PkTotal/PkNumber is defaulted")
 	}
 	c.Decide(len(bad) == 0, "C11-NORMALIZE", key, pos, fmt.Sprintf("%d receiver assignments, all of the permitted kinds", len(p.Enc.Assigns)), strings.Join(uniq(bad), "; "))
+}
+
+// bothZeroAtStore: at every store to the named part-counter field in IEncode, PkTotal == 0 and PkNumber == 0 are
+// established by the dominating branch edges (any spelling of "the unsigned field is zero": == 0, < 1, <= 0, negations
+// on the false edge, operands in either order).
+func bothZeroAtStore(c *core.Ctx, p *pduInfo, field string) bool {
+	fn := c.Prog.SSAFunc(p.Methods["IEncode"])
+	if fn == nil || len(fn.Params) == 0 {
+		return false
+	}
+	recv := ssa.Value(fn.Params[0])
+	fieldOfLoad := func(v ssa.Value) string {
+		if u, ok := v.(*ssa.UnOp); ok {
+			if chain, ok := ssaFieldChain(u.X, recv); ok {
+				return chain
+			}
+		}
+		return ""
+	}
+	// does `cond == taken` establish load(F) == 0 ?
+	zeroOf := func(cond ssa.Value, taken bool) string {
+		bo, ok := cond.(*ssa.BinOp)
+		if !ok {
+			return ""
+		}
+		x, y, op := bo.X, bo.Y, bo.Op
+		if _, isK := constInt(x); isK {
+			x, y = y, x
+			op = map[token.Token]token.Token{token.LSS: token.GTR, token.GTR: token.LSS, token.LEQ: token.GEQ, token.GEQ: token.LEQ, token.EQL: token.EQL, token.NEQ: token.NEQ}[op]
+		}
+		k, isK := constInt(y)
+		f := fieldOfLoad(x)
+		if !isK || f == "" {
+			return ""
+		}
+		if !taken {
+			op = map[token.Token]token.Token{token.LSS: token.GEQ, token.GEQ: token.LSS, token.GTR: token.LEQ, token.LEQ: token.GTR, token.EQL: token.NEQ, token.NEQ: token.EQL}[op]
+		}
+		if (op == token.EQL && k == 0) || (op == token.LSS && k == 1) || (op == token.LEQ && k == 0) {
+			return f
+		}
+		return ""
+	}
+	n := 0
+	for _, b := range fn.Blocks {
+		for _, ins := range b.Instrs {
+			st, ok := ins.(*ssa.Store)
+			if !ok {
+				continue
+			}
+			if chain, ok := ssaFieldChain(st.Addr, recv); !ok || chain != field {
+				continue
+			}
+			n++
+			zero := map[string]bool{}
+			for d := b; d.Idom() != nil; d = d.Idom() {
+				id := d.Idom()
+				ifi, ok := id.Instrs[len(id.Instrs)-1].(*ssa.If)
+				if !ok || id.Succs[0] == id.Succs[1] {
+					continue
+				}
+				viaTrue, viaFalse := viaEdge(id, d)
+				if viaTrue == viaFalse {
+					continue
+				}
+				if f := zeroOf(ifi.Cond, viaTrue); f != "" {
+					zero[f] = true
+				}
+			}
+			if !zero["PkTotal"] || !zero["PkNumber"] {
+				return false
+			}
+		}
+	}
+	return n > 0
 }
